@@ -125,6 +125,11 @@ BREAKS = [
     dict(id="c19_exception_class_one_copy", targets=["C19", "C13"], edits=[([BTP], "raise ValueError(\n                            f\"Argument 'teams' must have at least 1 player per team", "raise TypeError(\n                            f\"Argument 'teams' must have at least 1 player per team")]),
     dict(id="c19_default_one_copy", targets=["C19"], edits=[([TMP], "kappa: float = 0.0001,", "kappa: float = 0.0002,")]),
     dict(id="c19_param_renamed_one_copy", targets=["C19"], edits=[([TMF], "    def ordinal(self, z: float = 3.0) -> float:", "    def ordinal(self, z: float = 3) -> float:")]),
+    # defaults changed consistently in ALL five copies: C19 is blind to it, the property-specific checks must see it through
+    # the cases that rely on the library's own default configuration
+    dict(id="c01_default_tau_all5", targets=["C01", "C06"], edits=[(ALL5, "tau: float = 25.0 / 300.0,", "tau: float = 26.0 / 300.0,")]),
+    dict(id="c06_default_limit_sigma_all5", targets=["C01", "C06"], edits=[(ALL5, "limit_sigma: bool = False,", "limit_sigma: bool = True,")]),
+    dict(id="c01_default_kappa_all5", targets=["C01"], edits=[(ALL5, "kappa: float = 0.0001,", "kappa: float = 0.001,")]),
     # ---------------------------------------------------------------- C20
     dict(id="c20_mu_or_default", targets=["C20"], edits=[([BTF], "mu if mu is not None else self.mu,", "mu or self.mu,")]),
     dict(id="c20_deepcopy_drops_name", targets=["C20", "C02", "C19"], edits=[([PL], "plr = PlackettLuceRating(self.mu, self.sigma, self.name)", "plr = PlackettLuceRating(self.mu, self.sigma)")]),
